@@ -126,21 +126,18 @@ type c07Want struct {
 	I [2][2]bool `json:"i"` // X_s.Intersects(Y_u)
 }
 
-// c07Spans reports the largest number of index cells of y strictly contained in one
-// edge-free index cell of x (capped at 2).  >= 1 is the precondition of the branch of
-// loopCrosser.hasCrossingRelation that reasons from edge-free interior cells; the evidence
-// counts the pairs with >= 2 (one empty cell spanning several cells of the other index).
-func c07Spans(x, y *s2.ShapeIndex) int {
+// c07Spans looks for edge-free index cells of x that strictly contain index cells of y.
+// n is the largest number of such cells of y inside one empty cell of x (capped at 2): the
+// evidence counts the pairs with n >= 2 (one empty cell spanning several cells of the other
+// index).  center reports whether some strictly contained cell of y has its centre inside y:
+// the exact situation in which the branch of loopCrosser.hasCrossingRelation that reasons
+// from edge-free interior cells decides the outcome of Contains.
+func c07Spans(x, y *s2.ShapeIndex) (n int, center bool) {
 	x.Build()
 	y.Build()
 	xc := s2.VerifIndexCells(x)
 	yc := s2.VerifIndexCells(y)
-	ids := make([]uint64, len(yc))
-	for i, c := range yc {
-		ids[i] = uint64(c.ID)
-	}
-	sort.Slice(ids, func(i, j int) bool { return ids[i] < ids[j] })
-	best := 0
+	sort.Slice(yc, func(i, j int) bool { return yc[i].ID < yc[j].ID })
 	for _, c := range xc {
 		edges := 0
 		for _, s := range c.Shapes {
@@ -149,46 +146,53 @@ func c07Spans(x, y *s2.ShapeIndex) int {
 		if edges != 0 {
 			continue
 		}
-		lo, hi := uint64(c.ID.RangeMin()), uint64(c.ID.RangeMax())
-		a := sort.Search(len(ids), func(i int) bool { return ids[i] >= lo })
-		b := sort.Search(len(ids), func(i int) bool { return ids[i] > hi })
-		n := b - a
+		lo, hi := c.ID.RangeMin(), c.ID.RangeMax()
+		a := sort.Search(len(yc), func(i int) bool { return yc[i].ID >= lo })
+		b := sort.Search(len(yc), func(i int) bool { return yc[i].ID > hi })
+		m := 0
 		for i := a; i < b; i++ {
-			if ids[i] == uint64(c.ID) {
-				n--
+			if yc[i].ID == c.ID {
+				continue
+			}
+			m++
+			for _, s := range yc[i].Shapes {
+				if s.ContainsCenter {
+					center = true
+				}
 			}
 		}
-		if n >= 2 {
-			return 2
+		if m > 2 {
+			m = 2
 		}
-		if n > best {
-			best = n
+		if m > n {
+			n = m
 		}
 	}
-	return best
+	return
 }
 
 // c07SpanClass classifies a call recv.rel(arg) by the index structure of the loops involved:
-// recv-span / arg-span when an edge-free cell of a loop of recv / arg strictly contains an
-// index cell of a loop of the other region.  many reports whether some such cell contains >= 2.
+// "recv-span": an edge-free index cell of a loop of recv strictly contains an index cell of a
+// loop of arg whose centre is inside that loop; "arg-span": the same with the roles exchanged.
+// many reports whether some edge-free cell strictly contains >= 2 cells of the other index.
 func c07SpanClass(recv, arg []*s2.Loop) (cls string, many bool) {
 	cls = "nospan"
 	for _, x := range recv {
 		for _, y := range arg {
-			if n := c07Spans(s2.VerifLoopIndex(x), s2.VerifLoopIndex(y)); n > 0 {
+			n, ctr := c07Spans(s2.VerifLoopIndex(x), s2.VerifLoopIndex(y))
+			if ctr {
 				cls = "recv-span"
-				many = many || n >= 2
 			}
+			many = many || n >= 2
 		}
 	}
 	for _, x := range recv {
 		for _, y := range arg {
-			if n := c07Spans(s2.VerifLoopIndex(y), s2.VerifLoopIndex(x)); n > 0 {
-				if cls == "nospan" {
-					cls = "arg-span"
-				}
-				many = many || n >= 2
+			n, ctr := c07Spans(s2.VerifLoopIndex(y), s2.VerifLoopIndex(x))
+			if ctr && cls == "nospan" {
+				cls = "arg-span"
 			}
+			many = many || n >= 2
 		}
 	}
 	return
@@ -619,9 +623,9 @@ func c07Observe(seed int64, k int) c07Event {
 			ev.D[s][u] = ys[u].Contains(xs[s])
 			ev.I[s][u] = xs[s].Intersects(ys[u])
 			ev.J[s][u] = ys[u].Intersects(xs[s])
-			if c07Spans(s2.VerifLoopIndex(xs[s]), s2.VerifLoopIndex(ys[u])) > 0 || c07Spans(s2.VerifLoopIndex(ys[u]), s2.VerifLoopIndex(xs[s])) > 0 {
-				ev.Span = true
-			}
+			_, c1 := c07Spans(s2.VerifLoopIndex(xs[s]), s2.VerifLoopIndex(ys[u]))
+			_, c2 := c07Spans(s2.VerifLoopIndex(ys[u]), s2.VerifLoopIndex(xs[s]))
+			ev.Span = ev.Span || c1 || c2
 		}
 	}
 	for n, l := range []*s2.Loop{xs[0], xs[1], ys[0], ys[1]} {
